@@ -1,0 +1,88 @@
+//! Verification hook (compiled only with `--cfg ragc_verif_sched`): a facade over `std` whose
+//! `sync` and `thread` modules resolve to shuttle's controlled primitives. A module opts in with
+//! `#[cfg(ragc_verif_sched)] use crate::verif_std as std;`, which shadows the extern crate `std` for
+//! every path in that file, so no existing line changes. Also hosts the scheduling-point / event hooks
+//! used by the schedule explorer in /verif (all no-ops for the program logic).
+pub use ::std::*;
+
+pub mod sync {
+    pub use ::shuttle::sync::*;
+    pub use ::std::sync::OnceLock;
+}
+
+pub mod thread {
+    pub use ::shuttle::thread::*;
+    /// Time is not modelled: a sleep in a poll loop is a yield that is *marked* as a poll, so that the
+    /// explorer can treat the poller as waiting until another task has moved.
+    pub fn sleep(_dur: ::std::time::Duration) {
+        super::poll_point();
+    }
+}
+
+use ::std::cell::{Cell, RefCell};
+
+/// One logged event: (task, kind, a, b)
+#[derive(Clone, Debug, PartialEq, Eq)]
+pub struct Event {
+    pub task: usize,
+    pub kind: &'static str,
+    pub a: i64,
+    pub b: i64,
+}
+
+pub const FLAG_NONE: u8 = 0;
+pub const FLAG_POINT: u8 = 1;
+pub const FLAG_POLL: u8 = 2;
+
+thread_local! {
+    static EVENTS: RefCell<Vec<Event>> = const { RefCell::new(Vec::new()) };
+    static FLAG: Cell<u8> = const { Cell::new(0) };
+    static CURRENT: Cell<usize> = const { Cell::new(0) };
+    static ACTIVE: Cell<bool> = const { Cell::new(false) };
+}
+
+/// Called by the explorer: hooks are inert (no yield, no logging) unless activated on this OS thread.
+pub fn set_active(on: bool) {
+    ACTIVE.with(|a| a.set(on));
+}
+pub fn set_current(task: usize) {
+    CURRENT.with(|c| c.set(task));
+}
+pub fn take_flag() -> u8 {
+    FLAG.with(|f| f.replace(FLAG_NONE))
+}
+pub fn take_events() -> Vec<Event> {
+    EVENTS.with(|e| ::std::mem::take(&mut *e.borrow_mut()))
+}
+
+fn record(kind: &'static str, a: i64, b: i64) {
+    let task = CURRENT.with(|c| c.get());
+    EVENTS.with(|e| e.borrow_mut().push(Event { task, kind, a, b }));
+}
+
+/// A designated scheduling point (always OUTSIDE critical sections): log + yield to the explorer.
+pub fn point(kind: &'static str, a: i64, b: i64) {
+    if !ACTIVE.with(|x| x.get()) {
+        return;
+    }
+    record(kind, a, b);
+    FLAG.with(|f| f.set(FLAG_POINT));
+    ::shuttle::thread::yield_now();
+}
+
+/// A poll-loop wait (sleep): yield marked as a poll.
+pub fn poll_point() {
+    if !ACTIVE.with(|x| x.get()) {
+        ::shuttle::thread::yield_now();
+        return;
+    }
+    FLAG.with(|f| f.set(FLAG_POLL));
+    ::shuttle::thread::yield_now();
+}
+
+/// An event logged INSIDE a critical section (no yield): gives the linearisation order.
+pub fn qevent(kind: &'static str, a: i64, b: i64) {
+    if ACTIVE.with(|x| x.get()) {
+        record(kind, a, b);
+    }
+}
